@@ -324,6 +324,8 @@ def gen_service_case(rng):
   for _ in range(n):
     r = rng.random()
     full = [[m, rng.choice(pool)] for m in ids]
+    if rng.random() < 0.5:
+      rng.shuffle(full)      # workers report the metrics in any order: matching is by NAME
     if r < 0.40:
       ops.append({'kind': 'created-succeeded', 'final': full})
     elif r < 0.50:
@@ -344,7 +346,9 @@ def gen_service_case(rng):
     elif r < 0.90:
       ops.append({'kind': 'requested'})
     elif r < 0.94:
-      ops.append({'kind': 'created-succeeded', 'final': full + [['extra', rng.choice(GRID)]]})
+      f = list(full)
+      f.insert(rng.randrange(len(f) + 1), ['extra', rng.choice(GRID)])     # an unconfigured metric anywhere in the list
+      ops.append({'kind': 'created-succeeded', 'final': f})
     else:
       ops.append({'kind': 'created-succeeded', 'final': []})
   deletes = [i for i in range(len(ops)) if rng.random() < 0.08]
